@@ -274,6 +274,29 @@ func ruleAttacks(c *vf.Ctx, x *chain.Explorer, w *chain.World, path []string) {
 						rev.RenterOutput.Value = rev.RenterOutput.Value.Add(d)
 					}), true)
 				}
+				// the same static rules against the contract AS REVISED EARLIER IN THE BLOCK (two transactions): a first
+				// revision lowers the missed host value / raises the capacity, a second one goes back to the pre-block value
+				if fc.RevisionNumber < math.MaxUint64-4 {
+					second := func(r1 types.V2FileContract, f func(rev *types.V2FileContract)) chain.Use {
+						first := w.UseV2Revise(fce, r1, 1)
+						cur := *first.V2
+						rev := cur.FileContractRevisions[0].Revision
+						f(&rev)
+						u := w.UseV2Revise(fce, rev, 1)
+						u.Before = []chain.Use{first}
+						return u
+					}
+					if !fc.MissedHostValue.IsZero() {
+						r1 := fc
+						r1.MissedHostValue = r1.MissedHostValue.Sub(one)
+						try("v2 revision after an in-block revision that lowered the missed host value (control)", second(r1, func(rev *types.V2FileContract) {}), true)
+						try("v2 revision raises the missed host value back to its pre-block value after an in-block revision lowered it", second(r1, func(rev *types.V2FileContract) { rev.MissedHostValue = fc.MissedHostValue }), false)
+					}
+					r1 := fc
+					r1.Capacity += 64
+					try("v2 revision after an in-block revision that raised the capacity (control)", second(r1, func(rev *types.V2FileContract) {}), true)
+					try("v2 revision lowers the capacity back to its pre-block value after an in-block revision raised it", second(r1, func(rev *types.V2FileContract) { rev.Capacity = fc.Capacity }), false)
+				}
 				try("v2 revision expiration not after proof height", mk(func(rev *types.V2FileContract) { rev.ExpirationHeight = rev.ProofHeight }), false)
 				try("v2 revision filesize exceeds capacity", mk(func(rev *types.V2FileContract) { rev.Filesize = rev.Capacity + 1 }), false)
 				try("v2 revision decreases capacity", mk(func(rev *types.V2FileContract) {
